@@ -46,11 +46,13 @@ fn models(tier: Tier) -> Vec<(usize, Model)> {
             v.extend(gen::m1(0).into_iter().map(|m| (0, m)));
             v.extend(gen::m2(0).into_iter().step_by(23).map(|m| (1, m)));
             v.extend(gen::m3(0).into_iter().step_by(9).map(|m| (1, m)));
+            v.extend(gen::m5(0).into_iter().step_by(9).map(|m| (1, m)));
         }
         Tier::Thorough => {
             v.extend(gen::m1(1).into_iter().map(|m| (0, m)));
             v.extend(gen::m2(1).into_iter().step_by(29).map(|m| (1, m)));
             v.extend(gen::m3(1).into_iter().step_by(5).map(|m| (1, m)));
+            v.extend(gen::m5(1).into_iter().step_by(3).map(|m| (1, m)));
         }
     }
     // cumulative: 3-task sets under all 144 variants
@@ -189,6 +191,10 @@ pub fn check_events(
 ) {
     let not_blocked = |a: &[i32]| !blocked.iter().any(|b| b == a);
     let trace = std::env::var("PV_TRACE").is_ok();
+    // domains before the propagation being looked at: (snapshot id, domain per domain id)
+    let mut current: Option<(usize, Vec<Vec<i32>>)> = None;
+    // the previous propagation of the same invocation, not yet applied to `current`
+    let mut pending: Option<Pred> = None;
     for ev in events {
         if trace {
             eprintln!("EV {ev:?}");
@@ -206,6 +212,17 @@ pub fn check_events(
                 ..
             } => {
                 cx.acc.count("propagation_events", 1);
+                if snapshot == usize::MAX {
+                    current = None;
+                    pending = None;
+                } else if current.as_ref().map(|c| c.0) != Some(snapshot) {
+                    current = Some((snapshot, snapshots[snapshot].clone()));
+                    pending = None;
+                }
+                if let (Some(q), Some((_, doms))) = (pending.take(), current.as_mut()) {
+                    doms[ids[q.var].id as usize].retain(|v| q.holds_val(*v));
+                }
+                pending = rp(ids, predicate);
                 if lazy {
                     cx.acc.count("lazy_reasons_at_propagation", 1);
                 }
@@ -223,8 +240,23 @@ pub fn check_events(
                     .unwrap_or("nogood");
                 // (a) the stated facts hold in the state in which the reason is given
                 for (p, pos) in reason.iter().zip(&reason_positions) {
+                    // The recorded position is derived from the domain *after* the propagation; when
+                    // the propagation emptied the domain of the reason's own variable it can name
+                    // the propagation itself although the fact held before. A fact that holds on
+                    // the domains as they were before this propagation (the snapshot taken before
+                    // the propagator was invoked, narrowed by its earlier propagations in the same
+                    // invocation) holds in the state in which the reason is given.
+                    let held_before = || {
+                        rp(ids, *p).is_some_and(|q| {
+                            current.as_ref().is_some_and(|(_, doms)| {
+                                let dom = &doms[ids[q.var].id as usize];
+                                !dom.is_empty() && dom.iter().all(|v| q.holds_val(*v))
+                            })
+                        })
+                    };
                     let ok = matches!(pos, Some(q) if *q < trail_position)
-                        || dummy_true(*p) == Some(true);
+                        || dummy_true(*p) == Some(true)
+                        || held_before();
                     if !ok {
                         cx.violation(
                             format!("reason-not-true-at-propagation:{kind}:{name}"),
